@@ -12,6 +12,11 @@ for name in sorted(os.listdir(os.path.join(ROOT, "seeded"))):
     det = c.get("detected")
     note = m.get("strengthened", "")
     rc = m.get("reclassified")
+    if rc and not det and not rc.get("to"):
+        rows.append("| `%s` | %s | %s | %s | %s |" % (name, m["property"], (m.get("summary") or "").replace("|", "/")[:230],
+                                                  (m.get("needs") or "").replace("|", "/").replace("\n", " ")[:200],
+                                                  "quiet, and meant to be: " + rc["why"].replace("|", "/")[:420]))
+        continue
     if rc and not det:
         rows.append("| `%s` | %s | %s | %s | %s |" % (name, m["property"], (m.get("summary") or "").replace("|", "/")[:230],
                                                   (m.get("needs") or "").replace("|", "/").replace("\n", " ")[:200],
